@@ -131,7 +131,8 @@ Print Assumptions orders_append_only.
 
 (* readers never wait for a write transaction: the lock is only ever held by a thread inside a
    critical section (never across Event.wait, version set-up or a transaction body), that thread can
-   always move and frees the lock within two of its own steps; a reader needs nothing but the lock *)
+   always move and frees the lock within two of its own steps; so a reader about to open is either
+   enabled or held up only by such a thread, never by an open write transaction or by waiting writers *)
 Theorem lock_only_in_critical_sections : forall s t,
   Reachable s -> lock s = Some t ->
   holds_lock (pcs s t) = true /\ enabled s t = true /\
@@ -139,10 +140,13 @@ Theorem lock_only_in_critical_sections : forall s t,
 Proof. exact T_lock_only_in_critical_sections. Qed.
 Print Assumptions lock_only_in_critical_sections.
 
-Theorem readers_only_need_the_lock : forall s t sel,
-  pcs s t = Acq (CReaderOpen sel) -> (enabled s t = true <-> lock s = None).
-Proof. exact T_readers_only_need_the_lock. Qed.
-Print Assumptions readers_only_need_the_lock.
+Theorem reader_never_blocked_by_txn : forall s t sel,
+  Reachable s -> pcs s t = Acq (CReaderOpen sel) ->
+  enabled s t = true \/
+  exists t', lock s = Some t' /\ holds_lock (pcs s t') = true /\ enabled s t' = true /\
+             (lock (step s t') = None \/ lock (step (step s t') t') = None).
+Proof. exact T_reader_never_blocked_by_txn. Qed.
+Print Assumptions reader_never_blocked_by_txn.
 
 (* no partial view: what a reader holds is one of the committed versions of the serial history *)
 Theorem reader_sees_committed : forall s t i c,
